@@ -106,8 +106,9 @@ Definition create_entry (x : xmap) (k : nat) (h : heap) : heap * xmap * bool :=
     if vsize (mtab x1) <? msize x1 * map_default_lf_num / map_default_lf_den then rehash x1 h1 else (h1, x1, true) in
   if negb ok2 then (h2, x2, false) else
   let idx := k mod (vsize (mtab x2)) in
-  (* 4. m_freeEntries.empty() creates the sentinel of the free-entries list *)
-  let '(h3, fh, ok3) := get_ehead (mmgr x2) (mfhead x2) h2 in
+  (* 4. m_freeEntries.empty() does not create the head node of the free-entries list any more (K8 repair);
+        push_back does: Entry(allocate(1)) is evaluated first, then end() creates the head node, then the node *)
+  let '(h3, fh, ok3) := if list_empty_nonallocating then (h2, mfhead x2, true) else get_ehead (mmgr x2) (mfhead x2) h2 in
   let x3 := set_lists x2 (msize x2) (mehead x2) fh (mentries x2) (mfrees x2) in
   if negb ok3 then (h3, x3, false) else
   let '(h4, x4, ok4) :=
@@ -117,10 +118,14 @@ Definition create_entry (x : xmap) (k : nat) (h : heap) : heap * xmap * bool :=
         match alloc (mmgr x3) TAG_MVALUE 1 h3 with                 (* Entry(allocate(1)) *)
         | (h4, None) => (h4, x3, false)
         | (h4, Some v) =>
-            match alloc (mmgr x3) TAG_MNODE 1 h4 with              (* m_freeEntries.push_back: a fresh node *)
-            | (h5, None) => (h5, x3, false)                        (* the value block is lost *)
-            | (h5, Some nd) =>
-                (h5, set_lists x3 (msize x3) (mehead x3) (mfhead x3) (mentries x3) [mkentry nd v 0 false], true)
+            match get_ehead (mmgr x3) (mfhead x3) h4 with          (* m_freeEntries.push_back: end() *)
+            | (h4', fh', false) => (h4', x3, false)                (* the value block is lost *)
+            | (h4', fh', true) =>
+                match alloc (mmgr x3) TAG_MNODE 1 h4' with          (* ... and a fresh node *)
+                | (h5, None) => (h5, set_lists x3 (msize x3) (mehead x3) fh' (mentries x3) (mfrees x3), false)   (* the value block is lost *)
+                | (h5, Some nd) =>
+                    (h5, set_lists x3 (msize x3) (mehead x3) fh' (mentries x3) [mkentry nd v 0 false], true)
+                end
             end
         end
     end in
@@ -135,7 +140,12 @@ Definition create_entry (x : xmap) (k : nat) (h : heap) : heap * xmap * bool :=
   let x5 := set_lists x4 (msize x4) eh (mfhead x4) (mentries x4 ++ [e]) fr in
   (* 6. m_buckets[index].push_back(--m_entries.end()) *)
   let '(h6, b6, ok6) := bucket_push (nth idx (mbuckets x5) (bucket0 0)) (enode e) h5 in
-  if negb ok6 then (h6, x5, false) else           (* the entry is in m_entries but in no bucket; m_size not incremented *)
+  if negb ok6 then
+    (if map_bucket_push_guarded
+     then (* K23 repair: doRemoveEntry takes the entry out again: pair destroyed, entry on the free list, erased *)
+          (h6, set_lists x4 (msize x4) eh (mfhead x4) (mentries x4) (fr ++ [mkentry (enode e) (evalue e) k true]), false)
+     else (h6, x5, false))         (* the entry is in m_entries but in no bucket; m_size not incremented *)
+  else
   let x6 := set_tab x5 (mtab x5) (upd_nth idx (fun _ => b6) (mbuckets x5)) in
   (h6, set_lists x6 (S (msize x6)) (mehead x6) (mfhead x6) (mentries x6) (mfrees x6), true).
 
@@ -229,7 +239,8 @@ Definition members_dtor (x : xmap) (h : heap) : heap :=
 (* ~XalanMap; ok = false: the manager refused an allocation inside the destructor *)
 Definition map_dtor (x : xmap) (h : heap) : heap * bool :=
   let x1 := remove_entries (length (mentries x)) x in
-  let enter := if map_dtor_guard_buckets then negb (vsize (mtab x1) =? 0) else true in
+  (* K8 repair: m_freeEntries.begin() only when the free list has entries (then it has its head node) *)
+  let enter := if map_dtor_guard_buckets then negb (vsize (mtab x1) =? 0) && negb (length (mfrees x1) =? 0) else true in
   if enter then
     match get_ehead (mmgr x1) (mfhead x1) h with                    (* m_freeEntries.begin() *)
     | (h1, _, false) => (h1, false)
